@@ -541,7 +541,10 @@ class DimensionValue(Value):
     Covers DIMENSION, PERCENTAGE or NUMBER values.
     """
 
-    __reUnNumDim = re.compile(r'^([+-]?)(\d*\.\d+|\d+)(.*)$', re.I | re.U | re.X)
+    # (the unit may contain any character, an escaped line break too)
+    __reUnNumDim = re.compile(
+        r'^([+-]?)(\d*\.\d+|\d+)(.*)$', re.I | re.U | re.X | re.S
+    )
     _dimension = None
     _sign = None
 
